@@ -1,7 +1,14 @@
 import ParryModel.Field
 import ParryModel.C12.Model
+import ParryModel.C12.Theorems2
+import ParryModel.C12.Theorems3
+import ParryModel.C12.Theorems4
+import ParryModel.C12.Theorems5
+import Mathlib.Analysis.Real.Sqrt
 /-!
 # C12 theorems (first pass): the argmax primitive of the hull algorithms, and certificate soundness.
+The theorems about the 2-D quickhull algorithm itself are in `Theorems2.lean` … `Theorems5.lean` (imported here) and, for the
+parts that need `support_point_id_max` and the order laws, in the second half of this file.
 -/
 namespace C12
 open Model
@@ -125,5 +132,556 @@ theorem support_point_id_max (negMax : K) (dir : V2 K) (pts : Array (V2 K)) (idx
   refine ⟨a.elim id (fun m => by cases m), pj, hpj, ?_⟩
   intro i hi p hp
   rw [e]; exact h2 i hi p hp
+
+/-! ## second pass (continued from `Theorems2.lean`): the parts about the 2-D quickhull that need the order laws -/
+
+/-- **`can_be_seen_by` is the strict `> 100·eps` test**: for in-range indices the Boolean of the model is `true` exactly when
+`(pt - p0)·normal > eps100`, and `false` exactly when `(pt - p0)·normal ≤ eps100`. -/
+theorem canBeSeenBy_iff_strict (eps100 : K) (pts : Array (V2 K)) (f : SegFacet K) (v : Nat) (pv p0 : V2 K)
+    (hv : pts[v]? = some pv) (h0 : pts[f.p0]? = some p0) :
+    (@SegFacet.canBeSeenBy K (fieldNum K sq) f eps100 v pts = true ↔
+      eps100 < (pv.x - p0.x) * f.normal.x + (pv.y - p0.y) * f.normal.y) ∧
+    (@SegFacet.canBeSeenBy K (fieldNum K sq) f eps100 v pts = false ↔
+      (pv.x - p0.x) * f.normal.x + (pv.y - p0.y) * f.normal.y ≤ eps100) := by
+  simp only [SegFacet.canBeSeenBy, ptAt, hv, h0, Option.getD_some, V2.sub, V2.dot, decide_eq_true_eq, decide_eq_false_iff_not,
+    not_lt]
+  exact ⟨trivial, trivial⟩
+
+/-- **(4) every point waiting in a visible list is strictly outside its facet by more than `100·eps`**, at every step of
+the main loop, for every input on which the initial polyline exists: `(pts[v] - pts[f.p0])·f.normal > eps100`. -/
+theorem visible_points_strictly_outside (negMax eps100 : K) (pts : Array (V2 K)) (st0 : HullState K) (fuel i : Nat)
+    (h : @initialPolyline K (fieldNum K sq) negMax eps100 pts = some st0) :
+    ∀ (k : Nat) (f : SegFacet K), (@hullLoop K (fieldNum K sq) negMax eps100 pts fuel i st0).segs[k]? = some f →
+      ∀ v ∈ f.visible, ∃ pv p0, pts[v]? = some pv ∧ pts[f.p0]? = some p0 ∧
+        eps100 < (pv.x - p0.x) * f.normal.x + (pv.y - p0.y) * f.normal.y := by
+  intro k f hf v hv
+  have hok := @hullLoop_indices_valid K (fieldNum K sq) _ negMax eps100 pts fuel i st0
+    (@initialPolyline_indices_valid K (fieldNum K sq) negMax eps100 pts st0 h)
+  have hvis := @hullLoop_visible_seen K (fieldNum K sq) negMax eps100 pts st0 fuel i h k f hf v hv
+  obtain ⟨⟨h0, _, hl⟩, _⟩ := hok.1 k f hf
+  refine ⟨pts[v]'(hl v hv), pts[f.p0]'h0, Array.getElem?_eq_getElem _, Array.getElem?_eq_getElem _, ?_⟩
+  exact ((canBeSeenBy_iff_strict sq eps100 pts f v _ _ (Array.getElem?_eq_getElem _) (Array.getElem?_eq_getElem _)).1).mp hvis
+
+/-- **(3) the split point is extreme**: the point used to split facet `f` is one of `f`'s visible points and maximises
+`f.normal·p` over all of them (instance of `support_point_id_max`). -/
+theorem split_point_extreme (negMax : K) (pts : Array (V2 K)) (f : SegFacet K) (point : Nat)
+    (h : @indexedSupportPointId K (fieldNum K sq) negMax f.normal pts f.visible = some point) :
+    point ∈ f.visible ∧ ∃ pp, pts[point]? = some pp ∧ ∀ v ∈ f.visible, ∀ p, pts[v]? = some p →
+      f.normal.x * p.x + f.normal.y * p.y ≤ f.normal.x * pp.x + f.normal.y * pp.y :=
+  support_point_id_max sq negMax f.normal pts f.visible point h
+
+/-- **(3) every hull vertex is an input point that is extreme among a subset**: each index `j` returned by
+`convex_hull2_idx` is one of the two initial points, or there is a removed facet `f'` (still stored in the final facet array)
+such that `j` is one of `f'`'s visible points and maximises `f'.normal·p` over all of `f'`'s visible points — which by (4) all
+lie strictly outside `f'`. -/
+theorem hull_vertices_extreme (negMax eps100 : K) (pts : Array (V2 K)) (idx : List Nat)
+    (h : @convexHull2Idx K (fieldNum K sq) negMax eps100 pts = some idx) :
+    ∃ (st0 : HullState K) (a b : Nat), @initialPolyline K (fieldNum K sq) negMax eps100 pts = some st0 ∧
+      (st0.segs[0]?.map (·.p0)) = some a ∧ (st0.segs[0]?.map (·.p1)) = some b ∧
+      ∀ j ∈ idx, j = a ∨ j = b ∨ ∃ (k' : Nat) (f' : SegFacet K),
+        (@hullLoop K (fieldNum K sq) negMax eps100 pts (2 * pts.size + 8) 0 st0).segs[k']? = some f' ∧ f'.valid = false ∧
+        j ∈ f'.visible ∧ ∃ pj, pts[j]? = some pj ∧ ∀ v ∈ f'.visible, ∀ p, pts[v]? = some p →
+          f'.normal.x * p.x + f'.normal.y * p.y ≤ f'.normal.x * pj.x + f'.normal.y * pj.y := by
+  obtain ⟨st0, a, b, h0, ha, hb, hall⟩ := @convexHull2Idx_vertex_provenance K (fieldNum K sq) negMax eps100 pts idx h
+  refine ⟨st0, a, b, h0, ha, hb, ?_⟩
+  intro j hj
+  rcases hall j hj with r | r | ⟨k', f', hk', hv, hs⟩
+  · exact Or.inl r
+  · exact Or.inr (Or.inl r)
+  · obtain ⟨m, pj, hpj, hmax⟩ := support_point_id_max sq negMax f'.normal pts f'.visible j hs
+    exact Or.inr (Or.inr ⟨k', f', hk', hv, m, pj, hpj, hmax⟩)
+
+/-! ### (2) the panic cases of `get_initial_polyline` -/
+
+private theorem support_fold_isSome (dir : V2 K) (pts : Array (V2 K)) (idx : List Nat) (acc : Option Nat × K)
+    (h : acc.1 ≠ none) : (idx.foldl (@supportStep K (fieldNum K sq) dir pts) acc).1 ≠ none := by
+  induction idx generalizing acc with
+  | nil => exact h
+  | cons i is ih =>
+    simp only [List.foldl_cons]
+    apply ih
+    cases hpi : pts[i]? with
+    | none => rw [step_none sq dir pts acc i hpi]; exact h
+    | some p =>
+      rw [step_some sq dir pts acc i p hpi]
+      split_ifs
+      · simp
+      · exact h
+
+private theorem support_fold_none_snd (dir : V2 K) (pts : Array (V2 K)) (idx : List Nat) (acc : Option Nat × K)
+    (h : (idx.foldl (@supportStep K (fieldNum K sq) dir pts) acc).1 = none) :
+    (idx.foldl (@supportStep K (fieldNum K sq) dir pts) acc).2 = acc.2 := by
+  induction idx generalizing acc with
+  | nil => rfl
+  | cons i is ih =>
+    simp only [List.foldl_cons] at h ⊢
+    cases hpi : pts[i]? with
+    | none => rw [step_none sq dir pts acc i hpi] at h ⊢; exact ih acc h
+    | some p =>
+      rw [step_some sq dir pts acc i p hpi] at h ⊢
+      split_ifs at h ⊢ with hlt
+      · exact absurd h (support_fold_isSome sq dir pts is _ (by simp))
+      · exact ih acc h
+
+/-- a listed in-range point that beats the `-MAX` sentinel makes `indexed_support_point_id` return `Some` -/
+private theorem support_some_of_beats (negMax : K) (dir : V2 K) (pts : Array (V2 K)) (idx : List Nat) (i : Nat) (p : V2 K)
+    (hi : i ∈ idx) (hp : pts[i]? = some p) (hb : negMax < dir.x * p.x + dir.y * p.y) :
+    ∃ j, @indexedSupportPointId K (fieldNum K sq) negMax dir pts idx = some j := by
+  have := support_fold_inv sq dir pts idx (none, negMax) (by intro j hj; cases hj)
+  simp only at this
+  obtain ⟨_, h2, _⟩ := this
+  unfold indexedSupportPointId
+  cases hr : (idx.foldl (@supportStep K (fieldNum K sq) dir pts) (none, negMax)).1 with
+  | some j => exact ⟨j, rfl⟩
+  | none =>
+    have h3 := support_fold_none_snd sq dir pts idx (none, negMax) hr
+    have h4 := h2 i hi p hp
+    rw [h3] at h4
+    exact absurd hb (not_lt.mpr h4)
+
+/-- if every listed in-range point has the same dot product as the running maximum, the fold does not move -/
+private theorem support_fold_const (dir : V2 K) (pts : Array (V2 K)) (idx : List Nat) (acc : Option Nat × K)
+    (h : ∀ i ∈ idx, ∀ p, pts[i]? = some p → dir.x * p.x + dir.y * p.y = acc.2) :
+    idx.foldl (@supportStep K (fieldNum K sq) dir pts) acc = acc := by
+  induction idx generalizing acc with
+  | nil => rfl
+  | cons i is ih =>
+    simp only [List.foldl_cons]
+    have hstep : @supportStep K (fieldNum K sq) dir pts acc i = acc := by
+      cases hpi : pts[i]? with
+      | none => exact step_none sq dir pts acc i hpi
+      | some p =>
+        rw [step_some sq dir pts acc i p hpi, h i List.mem_cons_self p hpi]
+        simp
+    rw [hstep]
+    exact ih acc (fun j hj p hp => h j (List.mem_cons_of_mem _ hj) p hp)
+
+/-- on a cloud whose points all have the same dot product `d > -MAX`, `support_point_id` returns index 0 -/
+private theorem support_range_const (negMax d : K) (dir : V2 K) (pts : Array (V2 K)) (h0 : 0 < pts.size)
+    (h : ∀ (i : Nat) (p : V2 K), pts[i]? = some p → dir.x * p.x + dir.y * p.y = d) (hd : negMax < d) :
+    @indexedSupportPointId K (fieldNum K sq) negMax dir pts (List.range pts.size) = some 0 := by
+  obtain ⟨m, hm⟩ : ∃ m, pts.size = m + 1 := ⟨pts.size - 1, by omega⟩
+  rw [hm, List.range_succ_eq_map]
+  unfold indexedSupportPointId
+  simp only [List.foldl_cons]
+  have hp0 : pts[0]? = some pts[0] := Array.getElem?_eq_getElem h0
+  rw [step_some sq dir pts _ 0 _ hp0, h 0 _ hp0, if_pos hd, support_fold_const sq dir pts _ _ (fun i _ p hp => h i p hp)]
+
+private theorem fieldNum_neq_iff (a b : K) : @neq K (fieldNum K sq) a b = true ↔ a = b := by
+  unfold neq
+  rw [Bool.and_eq_true, decide_eq_true_eq, decide_eq_true_eq]
+  exact ⟨fun h => le_antisymm h.1 h.2, fun h => ⟨h.le, h.ge⟩⟩
+
+private theorem differs_false_iff (negMax : K) (pts : Array (V2 K)) (p1 : Nat) (d : V2 K) :
+    @differs K (fieldNum K sq) negMax pts p1 d = false ↔
+      (@ptAt K (fieldNum K sq) pts (@supAll K (fieldNum K sq) negMax pts d)).x = (@ptAt K (fieldNum K sq) pts p1).x ∧
+      (@ptAt K (fieldNum K sq) pts (@supAll K (fieldNum K sq) negMax pts d)).y = (@ptAt K (fieldNum K sq) pts p1).y := by
+  unfold differs
+  rw [Bool.not_eq_false', fieldNum_neq_iff]
+  generalize (@ptAt K (fieldNum K sq) pts (@supAll K (fieldNum K sq) negMax pts d)) = a
+  generalize (@ptAt K (fieldNum K sq) pts p1) = b
+  simp only [V2.normSq, V2.dot, V2.sub]
+  constructor
+  · intro h0
+    have h0' : (a.x - b.x) * (a.x - b.x) + (a.y - b.y) * (a.y - b.y) = 0 := h0
+    constructor
+    · nlinarith [mul_self_nonneg (a.x - b.x), mul_self_nonneg (a.y - b.y)]
+    · nlinarith [mul_self_nonneg (a.x - b.x), mul_self_nonneg (a.y - b.y)]
+  · rintro ⟨h1, h2⟩
+    show (a.x - b.x) * (a.x - b.x) + (a.y - b.y) * (a.y - b.y) = 0
+    rw [h1, h2]; ring
+
+private theorem support_fold_some_gt (dir : V2 K) (pts : Array (V2 K)) (idx : List Nat) (acc : Option Nat × K)
+    (hacc : acc.1 = none) (j : Nat) (h : (idx.foldl (@supportStep K (fieldNum K sq) dir pts) acc).1 = some j) :
+    acc.2 < (idx.foldl (@supportStep K (fieldNum K sq) dir pts) acc).2 := by
+  induction idx generalizing acc with
+  | nil => rw [List.foldl_nil, hacc] at h; cases h
+  | cons i is ih =>
+    simp only [List.foldl_cons] at h ⊢
+    cases hpi : pts[i]? with
+    | none => rw [step_none sq dir pts acc i hpi] at h ⊢; exact ih acc hacc h
+    | some p =>
+      rw [step_some sq dir pts acc i p hpi] at h ⊢
+      split_ifs at h ⊢ with hlt
+      · have := (support_fold_inv sq dir pts is (some i, dir.x * p.x + dir.y * p.y) (by
+          intro j hj; cases hj; exact ⟨p, hpi, rfl⟩)).1
+        exact lt_of_lt_of_le hlt this
+      · exact ih acc hacc h
+
+/-- **(2) the panic cases of `get_initial_polyline`, exactly as the model has them** (no hypothesis): the result is `none` iff
+there are fewer than 2 points, or no point has `x > -MAX` (then `support_point_id(+x)` is `None` and `unwrap` panics), or the
+point `p2` chosen by the three fallback directions `-x, -y, +y` is the index `p1` itself (`assert!(p1 != p2)`). -/
+theorem initialPolyline_none_iff (negMax eps100 : K) (pts : Array (V2 K)) :
+    @initialPolyline K (fieldNum K sq) negMax eps100 pts = none ↔
+      pts.size < 2 ∨ (∀ (i : Nat) (p : V2 K), pts[i]? = some p → p.x ≤ negMax) ∨
+      ∃ p1, @indexedSupportPointId K (fieldNum K sq) negMax ⟨1, 0⟩ pts (List.range pts.size) = some p1 ∧
+        @pickP2 K (fieldNum K sq) negMax pts p1 = p1 := by
+  rw [@initialPolyline_none_unfold K (fieldNum K sq)]
+  have key : @indexedSupportPointId K (fieldNum K sq) negMax ⟨1, 0⟩ pts (List.range pts.size) = none ↔
+      ∀ (i : Nat) (p : V2 K), pts[i]? = some p → p.x ≤ negMax := by
+    constructor
+    · intro hn i p hp
+      by_contra hlt
+      obtain ⟨j, hj⟩ := support_some_of_beats sq negMax ⟨1, 0⟩ pts (List.range pts.size) i p
+        (List.mem_range.mpr (Array.getElem?_eq_some_iff.mp hp).1) hp (by simpa using hlt)
+      rw [hn] at hj; cases hj
+    · intro hall
+      cases hs : @indexedSupportPointId K (fieldNum K sq) negMax ⟨1, 0⟩ pts (List.range pts.size) with
+      | none => rfl
+      | some j =>
+        exfalso
+        have hgt := support_fold_some_gt sq ⟨1, 0⟩ pts (List.range pts.size) (none, negMax) rfl j hs
+        obtain ⟨_, _, h3⟩ := support_fold_inv sq ⟨1, 0⟩ pts (List.range pts.size) (none, negMax) (by intro j hj; cases hj)
+        obtain ⟨_, pj, hpj, e⟩ := h3 j hs
+        have := hall j pj hpj
+        rw [← e] at hgt
+        simp only [one_mul, zero_mul, add_zero] at hgt
+        exact absurd hgt (not_lt.mpr this)
+  rw [key]
+
+private theorem ptAt_some (pts : Array (V2 K)) (i : Nat) (p : V2 K) (h : pts[i]? = some p) :
+    @ptAt K (fieldNum K sq) pts i = p := by simp [ptAt, h]
+
+private theorem supAll_some (negMax : K) (pts : Array (V2 K)) (d : V2 K) (j : Nat)
+    (h : @indexedSupportPointId K (fieldNum K sq) negMax d pts (List.range pts.size) = some j) :
+    @supAll K (fieldNum K sq) negMax pts d = j := by simp [supAll, h]
+
+/-- **(2) the panic cases, geometrically**: when every coordinate is strictly inside the sentinel range
+(`-MAX < ±x, ±y`, i.e. all coordinates finite and different from `±f64::MAX`), `get_initial_polyline` fails its asserts
+**exactly** when there are fewer than 2 points or all points coincide. In particular two distinct points are enough for the
+hull to start, and a cloud of `n ≥ 2` copies of one point always panics (the KNOWN finding of C12/C20). -/
+theorem initialPolyline_none_iff_coincident (negMax eps100 : K) (pts : Array (V2 K))
+    (hsent : ∀ (i : Nat) (p : V2 K), pts[i]? = some p → negMax < p.x ∧ negMax < -p.x ∧ negMax < p.y ∧ negMax < -p.y) :
+    @initialPolyline K (fieldNum K sq) negMax eps100 pts = none ↔
+      pts.size < 2 ∨ ∀ (i j : Nat) (p q : V2 K), pts[i]? = some p → pts[j]? = some q → p = q := by
+  rw [@initialPolyline_none_unfold K (fieldNum K sq)]
+  by_cases hsz : pts.size < 2
+  · simp [hsz]
+  have h0 : 0 < pts.size := by omega
+  have hp0 : pts[0]? = some pts[0] := Array.getElem?_eq_getElem h0
+  have hm0 : 0 ∈ List.range pts.size := List.mem_range.mpr h0
+  obtain ⟨s0, s1, s2, s3⟩ := hsent 0 _ hp0
+  -- the four supports exist
+  obtain ⟨jx, hjx⟩ := support_some_of_beats sq negMax ⟨1, 0⟩ pts _ 0 _ hm0 hp0 (by simpa using s0)
+  obtain ⟨j1, hj1⟩ := support_some_of_beats sq negMax ⟨-1, -0⟩ pts _ 0 _ hm0 hp0 (by simpa using s1)
+  obtain ⟨j2, hj2⟩ := support_some_of_beats sq negMax ⟨-0, -1⟩ pts _ 0 _ hm0 hp0 (by simpa using s3)
+  obtain ⟨j3, hj3⟩ := support_some_of_beats sq negMax ⟨0, 1⟩ pts _ 0 _ hm0 hp0 (by simpa using s2)
+  simp only [hsz, false_or]
+  constructor
+  · rintro (hnone | ⟨p1, hp1, hpick⟩)
+    · rw [hjx] at hnone; cases hnone
+    · obtain ⟨_, pp, hpp, hmx⟩ := support_point_id_max sq negMax ⟨1, 0⟩ pts _ p1 hp1
+      obtain ⟨_, q1, hq1, hm1⟩ := support_point_id_max sq negMax ⟨-1, -0⟩ pts _ j1 hj1
+      obtain ⟨_, q2, hq2, hm2⟩ := support_point_id_max sq negMax ⟨-0, -1⟩ pts _ j2 hj2
+      obtain ⟨_, q3, hq3, hm3⟩ := support_point_id_max sq negMax ⟨0, 1⟩ pts _ j3 hj3
+      have e1 := supAll_some sq negMax pts _ j1 hj1
+      have e2 := supAll_some sq negMax pts _ j2 hj2
+      have e3 := supAll_some sq negMax pts _ j3 hj3
+      have d1 := differs_false_iff sq negMax pts p1 ⟨-1, -0⟩
+      have d2 := differs_false_iff sq negMax pts p1 ⟨-0, -1⟩
+      rw [e1, ptAt_some sq pts j1 q1 hq1, ptAt_some sq pts p1 pp hpp] at d1
+      rw [e2, ptAt_some sq pts j2 q2 hq2, ptAt_some sq pts p1 pp hpp] at d2
+      unfold pickP2 at hpick
+      rw [e1, e2, e3] at hpick
+      have all : ∀ (i : Nat) (p : V2 K), pts[i]? = some p → p = pp := by
+        split_ifs at hpick with c1 c2
+        · exfalso
+          subst hpick
+          rw [hq1] at hpp; cases hpp
+          have := d1.mpr ⟨rfl, rfl⟩
+          rw [this] at c1; cases c1
+        · exfalso
+          subst hpick
+          rw [hq2] at hpp; cases hpp
+          have := d2.mpr ⟨rfl, rfl⟩
+          rw [this] at c2; cases c2
+        · subst hpick
+          rw [hq3] at hpp; cases hpp
+          have f1 := d1.mp (by simpa using c1)
+          have f2 := d2.mp (by simpa using c2)
+          intro i p hp
+          have hi : i ∈ List.range pts.size := List.mem_range.mpr (Array.getElem?_eq_some_iff.mp hp).1
+          have a1 := hmx i hi p hp
+          have a2 := hm1 i hi p hp
+          have a3 := hm2 i hi p hp
+          have a4 := hm3 i hi p hp
+          simp only [one_mul, zero_mul, add_zero, neg_mul, neg_zero, zero_add] at a1 a2 a3 a4
+          have hx : p.x = pp.x := le_antisymm a1 (by linarith [f1.1])
+          have hy : p.y = pp.y := le_antisymm a4 (by linarith [f2.2])
+          cases p; cases pp; simp only [V2.mk.injEq]; exact ⟨hx, hy⟩
+      intro i j p q hp hq
+      rw [all i p hp, all j q hq]
+  · intro hall
+    right
+    have cx : ∀ (d : V2 K) (i : Nat) (p : V2 K), pts[i]? = some p → d.x * p.x + d.y * p.y = d.x * pts[0].x + d.y * pts[0].y := by
+      intro d i p hp; rw [hall i 0 p _ hp hp0]
+    have r0 := support_range_const sq negMax _ ⟨1, 0⟩ pts h0 (cx _) (by simpa using s0)
+    have r1 := support_range_const sq negMax _ ⟨-1, -0⟩ pts h0 (cx _) (by simpa using s1)
+    have r2 := support_range_const sq negMax _ ⟨-0, -1⟩ pts h0 (cx _) (by simpa using s3)
+    have r3 := support_range_const sq negMax _ ⟨0, 1⟩ pts h0 (cx _) (by simpa using s2)
+    refine ⟨0, r0, ?_⟩
+    unfold pickP2
+    rw [supAll_some sq negMax pts _ 0 r1, supAll_some sq negMax pts _ 0 r2, supAll_some sq negMax pts _ 0 r3]
+    split_ifs <;> rfl
+
+/-- **(4, dropped points)**: in `attach_and_push_facets2` (called on an index-safe state with valid arguments) a visible
+point of the removed facet that is given to neither new facet lies within `100·eps` of the closed inner side of BOTH new
+facets: `(pts[v] - pts[F.p0])·F.normal ≤ eps100` for `F = F1, F2` — "naturally deleted" points are (within the tolerance)
+inside the two new edges. -/
+theorem attach_dropped_within_tolerance (eps100 : K) (pts : Array (V2 K)) (st : HullState K) (prevF nextF point removed : Nat)
+    (hok : @StateOK K pts.size st) (hp : prevF < st.segs.size) (hn : nextF < st.segs.size) (hpt : point < pts.size) :
+    ∃ (F1 F2 : SegFacet K) (a b : V2 K),
+      (@attach K (fieldNum K sq) eps100 pts st prevF nextF point removed).segs[st.segs.size]? = some F1 ∧
+      (@attach K (fieldNum K sq) eps100 pts st prevF nextF point removed).segs[st.segs.size + 1]? = some F2 ∧
+      pts[F1.p0]? = some a ∧ pts[F2.p0]? = some b ∧ F2.p0 = point ∧
+      ∀ v ∈ visOf st removed, v ≠ point → v ∈ F1.visible ∨ v ∈ F2.visible ∨
+        ∃ pv, pts[v]? = some pv ∧
+          (pv.x - a.x) * F1.normal.x + (pv.y - a.y) * F1.normal.y ≤ eps100 ∧
+          (pv.x - b.x) * F2.normal.x + (pv.y - b.y) * F2.normal.y ≤ eps100 := by
+  obtain ⟨F1, F2, g1, g2, gs, _, e2, _, _, _, _, hdrop⟩ :=
+    @attach_dropped_unseen K (fieldNum K sq) eps100 pts st prevF nextF point removed
+  have hok' := @attach_indices_valid K (fieldNum K sq) pts.size eps100 pts st prevF nextF point removed hok hp hn hpt
+  have i1 := (hok'.1 _ F1 g1).1.1
+  have i2 := (hok'.1 _ F2 g2).1.1
+  refine ⟨F1, F2, pts[F1.p0]'i1, pts[F2.p0]'i2, g1, g2, Array.getElem?_eq_getElem _, Array.getElem?_eq_getElem _, e2, ?_⟩
+  intro v hv hne
+  rcases hdrop v hv hne with h | h | ⟨h1, h2⟩
+  · exact Or.inl h
+  · exact Or.inr (Or.inl h)
+  · have iv : v < pts.size := @visOf_lt K (fieldNum K sq) _ _ hok removed v hv
+    refine Or.inr (Or.inr ⟨pts[v]'iv, Array.getElem?_eq_getElem _, ?_, ?_⟩)
+    · exact ((canBeSeenBy_iff_strict sq eps100 pts F1 v _ _ (Array.getElem?_eq_getElem _) (Array.getElem?_eq_getElem _)).2).mp h1
+    · exact ((canBeSeenBy_iff_strict sq eps100 pts F2 v _ _ (Array.getElem?_eq_getElem _) (Array.getElem?_eq_getElem _)).2).mp h2
+
+/-- **(5, consequence) nothing outside is left waiting at exit**: in the final state of the main loop (which is reached
+because `i == segments.len()`, see `convexHull2Idx_fuel_suffices`) a facet that is still valid has an EMPTY visible list,
+provided its visible points beat the `-MAX` sentinel in the direction of its normal (`normal·p > -MAX`, always true for
+finite `f64` inputs in the domain D). Together with (4) this says: at termination no input point that was ever attributed
+to a surviving facet is still more than `100·eps` outside it. -/
+theorem final_valid_facets_visible_empty (negMax eps100 : K) (pts : Array (V2 K)) (st0 : HullState K)
+    (h : @initialPolyline K (fieldNum K sq) negMax eps100 pts = some st0) (k : Nat) (g : SegFacet K)
+    (hg : (@hullLoop K (fieldNum K sq) negMax eps100 pts (2 * pts.size + 8) 0 st0).segs[k]? = some g) (hv : g.valid = true)
+    (hb : ∀ v ∈ g.visible, ∀ (p : V2 K), pts[v]? = some p → negMax < g.normal.x * p.x + g.normal.y * p.y) :
+    g.visible = [] := by
+  have hnone := @convexHull2Idx_all_processed K (fieldNum K sq) negMax eps100 pts st0 h k g hg hv
+  have hok := @hullLoop_indices_valid K (fieldNum K sq) _ negMax eps100 pts (2 * pts.size + 8) 0 st0
+    (@initialPolyline_indices_valid K (fieldNum K sq) negMax eps100 pts st0 h)
+  cases hvis : g.visible with
+  | nil => rfl
+  | cons v vs =>
+    exfalso
+    have hm : v ∈ g.visible := by rw [hvis]; exact List.mem_cons_self
+    have iv : v < pts.size := (hok.1 k g hg).1.2.2 v hm
+    obtain ⟨j, hj⟩ := support_some_of_beats sq negMax g.normal pts g.visible v _ hm (Array.getElem?_eq_getElem iv)
+      (hb v hm _ (Array.getElem?_eq_getElem iv))
+    rw [hnone] at hj; cases hj
+
+/-- under the sentinel hypothesis the second initial point is at a different POSITION than the first one (not only a
+different index), so both initial facets have non-zero length -/
+private theorem initial_positions_differ (negMax : K) (pts : Array (V2 K))
+    (hsent : ∀ (i : Nat) (p : V2 K), pts[i]? = some p → negMax < p.x ∧ negMax < -p.x ∧ negMax < p.y ∧ negMax < -p.y)
+    (h2 : 2 ≤ pts.size) (p1 : Nat)
+    (hp1 : @indexedSupportPointId K (fieldNum K sq) negMax ⟨1, 0⟩ pts (List.range pts.size) = some p1)
+    (hne : p1 ≠ @pickP2 K (fieldNum K sq) negMax pts p1) :
+    ∃ pa pb : V2 K, pts[p1]? = some pa ∧ pts[@pickP2 K (fieldNum K sq) negMax pts p1]? = some pb ∧ (pa.x ≠ pb.x ∨ pa.y ≠ pb.y) := by
+  have h0 : 0 < pts.size := by omega
+  have hp0 : pts[0]? = some pts[0] := Array.getElem?_eq_getElem h0
+  have hm0 : 0 ∈ List.range pts.size := List.mem_range.mpr h0
+  obtain ⟨s0, s1, s2, s3⟩ := hsent 0 _ hp0
+  obtain ⟨j1, hj1⟩ := support_some_of_beats sq negMax ⟨-1, -0⟩ pts _ 0 _ hm0 hp0 (by simpa using s1)
+  obtain ⟨j2, hj2⟩ := support_some_of_beats sq negMax ⟨-0, -1⟩ pts _ 0 _ hm0 hp0 (by simpa using s3)
+  obtain ⟨j3, hj3⟩ := support_some_of_beats sq negMax ⟨0, 1⟩ pts _ 0 _ hm0 hp0 (by simpa using s2)
+  obtain ⟨_, pp, hpp, hmx⟩ := support_point_id_max sq negMax ⟨1, 0⟩ pts _ p1 hp1
+  obtain ⟨_, q1, hq1, hm1⟩ := support_point_id_max sq negMax ⟨-1, -0⟩ pts _ j1 hj1
+  obtain ⟨_, q2, hq2, hm2⟩ := support_point_id_max sq negMax ⟨-0, -1⟩ pts _ j2 hj2
+  obtain ⟨_, q3, hq3, hm3⟩ := support_point_id_max sq negMax ⟨0, 1⟩ pts _ j3 hj3
+  have e1 := supAll_some sq negMax pts _ j1 hj1
+  have e2 := supAll_some sq negMax pts _ j2 hj2
+  have e3 := supAll_some sq negMax pts _ j3 hj3
+  have d1 := differs_false_iff sq negMax pts p1 ⟨-1, -0⟩
+  have d2 := differs_false_iff sq negMax pts p1 ⟨-0, -1⟩
+  rw [e1, ptAt_some sq pts j1 q1 hq1, ptAt_some sq pts p1 pp hpp] at d1
+  rw [e2, ptAt_some sq pts j2 q2 hq2, ptAt_some sq pts p1 pp hpp] at d2
+  unfold pickP2 at hne ⊢
+  rw [e1, e2, e3] at hne ⊢
+  split_ifs at hne ⊢ with c1 c2
+  · refine ⟨pp, q1, hpp, hq1, ?_⟩
+    by_contra hc; push Not at hc
+    have := d1.mpr ⟨hc.1.symm, hc.2.symm⟩
+    rw [this] at c1; cases c1
+  · refine ⟨pp, q2, hpp, hq2, ?_⟩
+    by_contra hc; push Not at hc
+    have := d2.mpr ⟨hc.1.symm, hc.2.symm⟩
+    rw [this] at c2; cases c2
+  · refine ⟨pp, q3, hpp, hq3, ?_⟩
+    by_contra hc; push Not at hc
+    have f1 := d1.mp (by simpa using c1)
+    have f2 := d2.mp (by simpa using c2)
+    -- then every point coincides with `pp`, every support is index 0, and `p1 = j3 = 0`
+    have all : ∀ (i : Nat) (p : V2 K), pts[i]? = some p → p = pp := by
+      intro i p hp
+      have hi : i ∈ List.range pts.size := List.mem_range.mpr (Array.getElem?_eq_some_iff.mp hp).1
+      have a1 := hmx i hi p hp
+      have a2 := hm1 i hi p hp
+      have a3 := hm2 i hi p hp
+      have a4 := hm3 i hi p hp
+      simp only [one_mul, zero_mul, add_zero, neg_mul, neg_zero, zero_add] at a1 a2 a3 a4
+      have hx : p.x = pp.x := le_antisymm a1 (by linarith [f1.1])
+      have hy : p.y = pp.y := le_antisymm (by linarith [hc.2]) (by linarith [f2.2])
+      cases p; cases pp; simp only [V2.mk.injEq]; exact ⟨hx, hy⟩
+    have cx : ∀ (d : V2 K) (i : Nat) (p : V2 K), pts[i]? = some p → d.x * p.x + d.y * p.y = d.x * pts[0].x + d.y * pts[0].y := by
+      intro d i p hp; rw [all i p hp, all 0 _ hp0]
+    have r0 := support_range_const sq negMax _ ⟨1, 0⟩ pts h0 (cx _) (by simpa using s0)
+    have r3 := support_range_const sq negMax _ ⟨0, 1⟩ pts h0 (cx _) (by simpa using s2)
+    rw [r0] at hp1; rw [r3] at hj3
+    cases hp1; cases hj3
+    exact hne rfl
+
+/-- **all panics of `convex_hull2_idx`, geometrically** (lawful square root, tolerance `eps100 ≥ 0`, coordinates strictly
+inside the `±MAX` sentinel): the model returns `none` — i.e. the real function hits an `assert!`, an `unwrap` or runs off
+`segments` looking for a valid facet — **exactly** when there are fewer than 2 points or all points coincide. For every other
+input it returns a list of valid input indices (`convexHull2Idx_indices_valid`). -/
+theorem convexHull2Idx_none_iff_degenerate (hsq : LawfulSqrt sq) (negMax eps100 : K) (h0 : 0 ≤ eps100) (pts : Array (V2 K))
+    (hsent : ∀ (i : Nat) (p : V2 K), pts[i]? = some p → negMax < p.x ∧ negMax < -p.x ∧ negMax < p.y ∧ negMax < -p.y) :
+    @convexHull2Idx K (fieldNum K sq) negMax eps100 pts = none ↔
+      pts.size < 2 ∨ ∀ (i j : Nat) (p q : V2 K), pts[i]? = some p → pts[j]? = some q → p = q := by
+  rw [← initialPolyline_none_iff_coincident sq negMax eps100 pts hsent]
+  constructor
+  · intro hnone
+    cases hi : @initialPolyline K (fieldNum K sq) negMax eps100 pts with
+    | none => rfl
+    | some st0 =>
+      exfalso
+      obtain ⟨p1, p2, hsz, hp1, hp2, hne, hst⟩ := @initialPolyline_eq_some K (fieldNum K sq) negMax eps100 pts st0 hi
+      rw [@pickP2_eq K (fieldNum K sq)] at hp2
+      subst hp2
+      obtain ⟨pa, pb, ha, hb, hd⟩ := initial_positions_differ sq negMax pts hsent hsz p1 hp1 hne
+      have hv := new_valid_of_ne sq hsq pts _ _ pa pb ha hb hd
+      obtain ⟨idx, hidx⟩ := convexHull2Idx_some_of_valid_start sq hsq negMax eps100 h0 pts st0 hi
+        ⟨0, withVis (@SegFacet.new K (fieldNum K sq) p1 (@pickP2 K (fieldNum K sq) negMax pts p1) 1 1 pts) _,
+          by rw [hst]; rfl, hv⟩
+      rw [hnone] at hidx; cases hidx
+  · intro hnone
+    unfold convexHull2Idx
+    rw [hnone]
+
+/-- **the returned polygon, edge by edge** (lawful `sqrt`, `eps100 ≥ 0`, coordinates inside the `±MAX` sentinel): when
+`convex_hull2_idx` returns `idx`, the final walk has gone once around a cycle of `m = idx.length ≤ segments.len()` pairwise
+distinct facets, all valid, and the polygon's `t`-th edge `(idx[t], idx[(t+1) % m])` IS the `t`-th visited facet
+`(g.p0, g.p1)`. So every edge of the output carries the invariants proved for facets: its end points are input points that
+were extreme when created (`hull_vertices_extreme`), its normal is the right-hand normal of the edge
+(`hullLoop_normals_consistent`), it has non-zero length, and no input point attributed to it is still waiting more than
+`100·eps` outside (`final_valid_facets_visible_empty`). -/
+theorem convexHull2Idx_output_is_facet_cycle (hsq : LawfulSqrt sq) (negMax eps100 : K) (h0 : 0 ≤ eps100) (pts : Array (V2 K))
+    (hsent : ∀ (i : Nat) (p : V2 K), pts[i]? = some p → negMax < p.x ∧ negMax < -p.x ∧ negMax < p.y ∧ negMax < -p.y)
+    (idx : List Nat) (h : @convexHull2Idx K (fieldNum K sq) negMax eps100 pts = some idx) :
+    ∃ (st0 : HullState K) (first m : Nat), @initialPolyline K (fieldNum K sq) negMax eps100 pts = some st0 ∧
+      0 < m ∧ m ≤ (@hullLoop K (fieldNum K sq) negMax eps100 pts (2 * pts.size + 8) 0 st0).segs.size ∧ idx.length = m ∧
+      (∀ a b, a < m → b < m →
+        nxtIter (@hullLoop K (fieldNum K sq) negMax eps100 pts (2 * pts.size + 8) 0 st0).segs a first =
+        nxtIter (@hullLoop K (fieldNum K sq) negMax eps100 pts (2 * pts.size + 8) 0 st0).segs b first → a = b) ∧
+      ∀ t, t < m → ∃ g : SegFacet K,
+        (@hullLoop K (fieldNum K sq) negMax eps100 pts (2 * pts.size + 8) 0 st0).segs[
+          nxtIter (@hullLoop K (fieldNum K sq) negMax eps100 pts (2 * pts.size + 8) 0 st0).segs t first]? = some g ∧
+        g.valid = true ∧ idx[t]? = some g.p0 ∧ idx[(t + 1) % m]? = some g.p1 := by
+  unfold convexHull2Idx at h
+  cases hi : @initialPolyline K (fieldNum K sq) negMax eps100 pts with
+  | none => rw [hi] at h; cases h
+  | some st0 =>
+    rw [hi] at h
+    simp only at h
+    obtain ⟨p1, p2, hsz, hp1, hp2, hne, hst⟩ := @initialPolyline_eq_some K (fieldNum K sq) negMax eps100 pts st0 hi
+    rw [@pickP2_eq K (fieldNum K sq)] at hp2
+    subst hp2
+    obtain ⟨pa, pb, ha, hb, hd⟩ := initial_positions_differ sq negMax pts hsent hsz p1 hp1 hne
+    have hv1 := new_valid_of_ne sq hsq pts _ _ pa pb ha hb hd
+    have hv2 := new_valid_of_ne sq hsq pts _ _ pb pa hb ha (hd.imp Ne.symm Ne.symm)
+    have hval0 : ∀ (k : Nat) (g : SegFacet K), st0.segs[k]? = some g → g.valid = true := by
+      intro k g hg
+      rw [hst] at hg
+      rcases two_get _ _ k g hg with ⟨_, rfl⟩ | ⟨_, rfl⟩
+      · exact hv1
+      · exact hv2
+    obtain ⟨_, live, hch, hlv⟩ := hullLoop_live_valid sq hsq negMax eps100 h0 pts st0 (2 * pts.size + 8) 0 hi hval0
+    cases hfind : (List.range (@hullLoop K (fieldNum K sq) negMax eps100 pts (2 * pts.size + 8) 0 st0).segs.size).find?
+        (fun i => ((@hullLoop K (fieldNum K sq) negMax eps100 pts (2 * pts.size + 8) 0 st0).segs[i]?.map (·.valid)).getD false) with
+    | none => rw [hfind] at h; cases h
+    | some first =>
+      rw [hfind] at h
+      simp only [Option.some.injEq] at h
+      have hfv := List.find?_some hfind
+      have hlf : live first := by
+        cases hs : (@hullLoop K (fieldNum K sq) negMax eps100 pts (2 * pts.size + 8) 0 st0).segs[first]? with
+        | none => simp [hs] at hfv
+        | some g => exact hch.valid_live first g hs (by simpa [hs] using hfv)
+      obtain ⟨m, hm0, hms, hinj, hlen, hedges⟩ := hullWalk_edges_are_facets hch hlv first hlf
+      rw [h] at hlen hedges
+      exact ⟨st0, first, m, rfl, hm0, hms, hlen, hinj, hedges⟩
+
+/-! ### non-vacuity of the hypotheses of the field-level theorems (over `ℚ`, lawful instance `fieldNum ℚ id`) -/
+
+/-- the sentinel hypothesis of `initialPolyline_none_iff_coincident` is satisfiable, and the theorem then decides that two
+distinct points do start a hull -/
+example : @initialPolyline ℚ (fieldNum ℚ id) (-10) (1 / 100) #[⟨0, 0⟩, ⟨1, 0⟩] ≠ none := by
+  have hsent : ∀ (i : Nat) (p : V2 ℚ), (#[⟨0, 0⟩, ⟨1, 0⟩] : Array (V2 ℚ))[i]? = some p →
+      (-10 : ℚ) < p.x ∧ (-10 : ℚ) < -p.x ∧ (-10 : ℚ) < p.y ∧ (-10 : ℚ) < -p.y := by
+    intro i p hp
+    match i with
+    | 0 => simp at hp; subst hp; norm_num
+    | 1 => simp at hp; subst hp; norm_num
+    | n + 2 => simp at hp
+  intro h
+  rw [initialPolyline_none_iff_coincident id (-10) (1 / 100) _ hsent] at h
+  rcases h with h | h
+  · simp at h
+  · have := h 0 1 ⟨0, 0⟩ ⟨1, 0⟩ (by simp) (by simp)
+    simp at this
+
+/-- … and that three copies of one point panic -/
+example : @initialPolyline ℚ (fieldNum ℚ id) (-10) (1 / 100) #[⟨1, 2⟩, ⟨1, 2⟩, ⟨1, 2⟩] = none := by
+  have hsent : ∀ (i : Nat) (p : V2 ℚ), (#[⟨1, 2⟩, ⟨1, 2⟩, ⟨1, 2⟩] : Array (V2 ℚ))[i]? = some p →
+      (-10 : ℚ) < p.x ∧ (-10 : ℚ) < -p.x ∧ (-10 : ℚ) < p.y ∧ (-10 : ℚ) < -p.y := by
+    intro i p hp
+    match i with
+    | 0 => simp at hp; subst hp; norm_num
+    | 1 => simp at hp; subst hp; norm_num
+    | 2 => simp at hp; subst hp; norm_num
+    | n + 3 => simp at hp
+  rw [initialPolyline_none_iff_coincident id (-10) (1 / 100) _ hsent]
+  right
+  intro i j p q hp hq
+  have key : ∀ (i : Nat) (p : V2 ℚ), (#[⟨1, 2⟩, ⟨1, 2⟩, ⟨1, 2⟩] : Array (V2 ℚ))[i]? = some p → p = ⟨1, 2⟩ := by
+    intro i p hp
+    match i with
+    | 0 => simp at hp; exact hp.symm
+    | 1 => simp at hp; exact hp.symm
+    | 2 => simp at hp; exact hp.symm
+    | n + 3 => simp at hp
+  rw [key i p hp, key j q hq]
+
+/-- non-vacuity of `LawfulSqrt` (`ℚ` has no lawful square root; `ℝ` has) -/
+theorem lawfulSqrt_real : LawfulSqrt Real.sqrt := ⟨fun x _ => Real.sqrt_nonneg x, fun _ hx => Real.mul_self_sqrt hx⟩
+
+/-- all hypotheses of `convexHull2Idx_none_iff_degenerate` (and therefore of `step_convex_corner`, `hullLoop_loopInv`) are
+satisfiable together: over `ℝ` with the real square root, a right triangle is not degenerate, so `convex_hull2_idx` returns a
+hull -/
+example : ∃ idx, @convexHull2Idx ℝ (fieldNum ℝ Real.sqrt) (-10) (1 / 100) #[⟨0, 0⟩, ⟨1, 0⟩, ⟨0, 1⟩] = some idx := by
+  have hsent : ∀ (i : Nat) (p : V2 ℝ), (#[⟨0, 0⟩, ⟨1, 0⟩, ⟨0, 1⟩] : Array (V2 ℝ))[i]? = some p →
+      (-10 : ℝ) < p.x ∧ (-10 : ℝ) < -p.x ∧ (-10 : ℝ) < p.y ∧ (-10 : ℝ) < -p.y := by
+    intro i p hp
+    match i with
+    | 0 => simp at hp; subst hp; norm_num
+    | 1 => simp at hp; subst hp; norm_num
+    | 2 => simp at hp; subst hp; norm_num
+    | n + 3 => simp at hp
+  cases h : @convexHull2Idx ℝ (fieldNum ℝ Real.sqrt) (-10) (1 / 100) #[⟨0, 0⟩, ⟨1, 0⟩, ⟨0, 1⟩] with
+  | some idx => exact ⟨idx, rfl⟩
+  | none =>
+    exfalso
+    rw [convexHull2Idx_none_iff_degenerate Real.sqrt lawfulSqrt_real (-10) (1 / 100) (by norm_num) _ hsent] at h
+    rcases h with h | h
+    · simp at h
+    · have := h 0 1 ⟨0, 0⟩ ⟨1, 0⟩ (by simp) (by simp)
+      simp at this
 
 end C12
